@@ -432,26 +432,32 @@ def check_spec(acc, rng, mode, form, constraints, varnames, tag):
     code = REPRO.format(setup=setup_src(mode, varnames), spec=py(spec), varnames=list(varnames),
                         mode_check=CHECK_VALUES.format(nrows=len(constraints), probes=probes))
     w = dict(base_w, code=code)
-    unary = any("neg" in repr(c[:2]) for c in constraints)
-    cls_extra = ":unary" if unary else ""
     if exc is not None:
-        acc.fail("C16.linear.accepted", f"raises-{type(exc).__name__}:{form}{cls_extra}", w, f"{type(exc).__name__}: {exc}")
+        acc.fail("C16.linear.accepted", f"raises-{type(exc).__name__}:{form}", w, f"{type(exc).__name__}: {exc}")
         return
     A = np.asarray(lc.constraint_matrix, dtype=float)
     b = np.asarray(lc.constraint_values, dtype=float)
     if A.shape != (len(constraints), len(varnames)) or b.shape != (len(constraints),):
         acc.fail("C16.rows.count", f"shape:{form}", w, f"A{A.shape} b{b.shape} for {len(constraints)} constraints over {len(varnames)} names")
         return
-    for x, want in probes:
-        for i, wv in enumerate(want):
+    def row_ok(i, k):
+        """Does compiled row i reproduce written constraint k at every probe point?"""
+        for x, want in probes:
             terms = [F(float(A[i, j])) * F(x[j]) for j in range(len(varnames))]
             got = sum(terms) - F(float(b[i]))
-            scale = 1 + sum(abs(t) for t in terms) + abs(F(float(b[i]))) + abs(F(wv))
-            if abs(got - F(wv)) > F(1, 10**9) * scale:
-                # is it a permutation of the rows? (order violation rather than value violation)
-                acc.fail("C16.affine.value", f"{form}{cls_extra}:{'multi' if len(constraints) > 1 else 'single'}", w,
-                         f"row {i} at x={x}: A.x-b = {float(got)!r} but lhs-rhs = {float(F(wv))!r}; A={A.tolist()} b={b.tolist()}")
-                return
+            scale = 1 + sum(abs(t) for t in terms) + abs(F(float(b[i]))) + abs(F(want[k]))
+            if abs(got - F(want[k])) > F(1, 10**9) * scale:
+                return False, (x, float(got), float(F(want[k])))
+        return True, None
+
+    m = len(constraints)
+    bad = [(i, row_ok(i, i)[1]) for i in range(m) if not row_ok(i, i)[0]]
+    if bad:
+        permuted = any(all(row_ok(i, perm[i])[0] for i in range(m)) for perm in itertools.permutations(range(m)))
+        i, (x, got, want) = bad[0]
+        acc.fail("C16.rows.order" if permuted else "C16.affine.value", form, w,
+                 f"row {i} at x={x}: A.x-b = {got!r} but lhs-rhs = {want!r}; A={A.tolist()} b={b.tolist()}"
+                 + (" (rows are a permutation of the written constraints)" if permuted else ""))
 
 
 # ------------------------------------------------------------------ workers
